@@ -476,7 +476,29 @@ struct event_test {
 void autoreset(long iters, uint64_t seed) {
   rng r(seed);
   long values = 0, sets_total = 0, rounds = 0, done_seen = 0, cancelled_rounds = 0;
+  // watchdog: a next() that is never completed although the producer finished with set_done() (or the stop request was
+  // delivered) would block sync_wait forever
+  std::atomic<long> progress{0};
+  std::atomic<bool> finished_all{false};
+  std::thread watchdog([&] {
+    long last = -1;
+    auto t0 = std::chrono::steady_clock::now();
+    while (!finished_all.load(std::memory_order_acquire)) {
+      std::this_thread::sleep_for(std::chrono::milliseconds(200));
+      long p = progress.load(std::memory_order_relaxed);
+      if (p != last) {
+        last = p;
+        t0 = std::chrono::steady_clock::now();
+      } else if (std::chrono::duration<double>(std::chrono::steady_clock::now() - t0).count() > 30) {
+        violation("C16:autoreset:stranded-next", "round %ld: next() still pending 30s after the producer finished / stop was "
+                  "requested", p);
+        report();
+        _exit(0);
+      }
+    }
+  });
   for (long i = 0; i < iters; ++i) {
+    progress.store(i, std::memory_order_relaxed);
     unifex::async_auto_reset_event evt;
     int nsets = r.below(6);
     bool cancel = r.chance(1, 4);
@@ -530,6 +552,8 @@ void autoreset(long iters, uint64_t seed) {
     if (cancel)
       ++cancelled_rounds;
   }
+  finished_all.store(true, std::memory_order_release);
+  watchdog.join();
   stat_add("autoreset_rounds", rounds);
   stat_add("autoreset_values", values);
   stat_add("autoreset_sets", sets_total);
